@@ -44,6 +44,9 @@ def setup_imports():
     import logging
     logging.disable(logging.CRITICAL)  # graphtage logs warnings through the root logger; never compared
     import graphtage
+    import graphtage.printer
+    # progress bars go to stderr and are never compared; quiet is an explicit variable only in C05
+    graphtage.printer.DEFAULT_PRINTER.quiet = True
     got = os.path.realpath(os.path.dirname(os.path.dirname(graphtage.__file__)))
     if got != os.path.realpath(REPO):
         raise SystemExit(f"HARNESS-ERROR graphtage imported from {got}, expected {REPO}")
